@@ -146,11 +146,12 @@ Theorem C01_f32_double_rounding_refuted :
 Proof. exact f32_double_rounding_refuted. Qed.
 Print Assumptions C01_f32_double_rounding_refuted.
 
-Theorem C01_ptrptr_null_refuted :
-  sonic_unmarshal h1 Jit opts_std (TPtr (TPtr TUnm)) (b "null") VNil = Err /\
+(* repaired (fac5479): null into **T with ( *T ) an unmarshaler *)
+Theorem C01_ptrptr_null_agree :
+  sonic_unmarshal h1 Jit opts_std (TPtr (TPtr TUnm)) (b "null") VNil = Ok VNil /\
   std_unmarshal opts_std (TPtr (TPtr TUnm)) (b "null") VNil = Ok VNil.
-Proof. exact ptrptr_null_refuted. Qed.
-Print Assumptions C01_ptrptr_null_refuted.
+Proof. exact ptrptr_null_agree. Qed.
+Print Assumptions C01_ptrptr_null_agree.
 
 (* repaired (afd5482): a uint32 map key above 2^32-1 is rejected by both *)
 Theorem C01_u32_map_key_agree :
